@@ -79,5 +79,5 @@ def cmd_contract(name, kind):
 def install(world):
     register(world, Contract(func=RSC, serves=["C13"], scenarios=[], key=RSC,
                              raises=[("ValueError", "two_columns_selected(selection)")], note="assumed summary (validated by the bounded monitor)"))
-    register(world, cmd_contract("evo_aspirate", "Aspirate"))
-    register(world, cmd_contract("evo_dispense", "Dispense"))
+    register(world, cmd_contract("evo_aspirate", "Aspirate")).shards = 6
+    register(world, cmd_contract("evo_dispense", "Dispense")).shards = 6
